@@ -30,6 +30,13 @@ Section Kw.
     rewrite <- HT, <- HL. exact Hkw.
   Qed.
 
+  Theorem in_sep_marked sep kw v : mk sep = false -> (forall k, In k kw -> D mk k = []) -> in_list (split v [sep]) kw = true -> D mk v = [].
+  Proof.
+    intros Hsep Hkw H. assert (HS : concat (map (D mk) (split v [sep])) = D mk v) by (apply D_split; assumption).
+    rewrite <- HS. apply concat_nil. intros x Hx. apply in_map_iff in Hx as (part & <- & Hpart).
+    unfold in_list in H. rewrite forallb_forall in H. specialize (H _ Hpart). apply mem_In in H. exact (Hkw _ H).
+  Qed.
+
   Hypothesis mk_blank : mk 32 = false.
   Theorem in_space_marked kw v : (forall k, In k kw -> D mk k = []) -> in_list (split v [32]) kw = true -> D mk v = [].
   Proof.
@@ -51,19 +58,21 @@ Section Env.
     | CInSpace kw => forall v, in_list (split v [32]) kw = true -> P v
     | CExact kw => forall v, mem v kw = true -> P v
     | CRec _ _ _ => False
+    | CInSep sep kw => forall v, in_list (split v [sep]) kw = true -> P v
     end.
   Definition env_ok (env : henv) : Prop := forall e, In e env -> forall v, snd e v = true -> P v.
 
   Lemma eval_def_ok env d : env_ok env -> Forall cond_ok d -> forall v, eval_def acceptors env d v = true -> P v.
   Proof.
     intros He Hd v H. unfold eval_def in H. apply existsb_exists in H as (c & Hc & Hv).
-    rewrite Forall_forall in Hd. specialize (Hd c Hc). destruct c as [nm|fn|kw|kw|kw|sep mx fns]; cbn [eval_cond cond_ok] in *.
+    rewrite Forall_forall in Hd. specialize (Hd c Hc). destruct c as [nm|fn|kw|kw|kw|sep mx fns|sep kw]; cbn [eval_cond cond_ok] in *.
     - exact (Hd v Hv).
     - unfold call_env in Hv. destruct (find _ env) as [e|] eqn:Ef; [|discriminate]. apply find_some in Ef as [Ein _]. exact (He e Ein v Hv).
     - exact (Hd v Hv).
     - exact (Hd v Hv).
     - exact (Hd v Hv).
     - contradiction.
+    - exact (Hd v Hv).
   Qed.
 
   Theorem build_handlers_ok : forall defs env, env_ok env -> Forall (fun nd => Forall cond_ok (snd nd)) defs ->
@@ -101,6 +110,7 @@ Section Env2.
     match c with
     | CIn kw | CInSpace kw | CExact kw => forall k, In k kw -> D mk k = []
     | CRec sep _ _ => mk sep = false
+    | CInSep sep kw => mk sep = false /\ forall k, In k kw -> D mk k = []
     | _ => True
     end.
 
@@ -143,20 +153,22 @@ Section Env2.
     | CIn kw => kw_handler kw v = true -> Cl v
     | CInSpace kw => in_list (split v [32]) kw = true -> Cl v
     | CExact kw => mem v kw = true -> Cl v
+    | CInSep sep kw => in_list (split v [sep]) kw = true -> Cl v
     | _ => True
     end.
   Proof.
-    destruct c as [nm|fn|kw|kw|kw|sep mx fns]; cbn [cond_data_ok]; intros Hd; try exact Logic.I.
+    destruct c as [nm|fn|kw|kw|kw|sep mx fns|sep kw]; cbn [cond_data_ok]; intros Hd; try exact Logic.I.
     - intros H. apply (kw_handler_marked mk) with (kw := kw); assumption.
     - intros H. apply (in_space_marked mk) with (kw := kw); assumption.
     - intros H. apply mem_In in H. exact (Hd v H).
+    - intros H. destruct Hd as [Hsep Hkw]. apply (in_sep_marked mk) with (sep := sep) (kw := kw); assumption.
   Qed.
 
   Lemma cond_P env kept clset c v : inv env clset -> cond_data_ok c -> cond_admissible kept clset c = true ->
     eval_cond acceptors env c v = true -> P v.
   Proof.
     intros Hinv Hd Ha H. pose proof (data_Cl c v Hd) as HD.
-    destruct c as [nm|fn|kw|kw|kw|sep mx fns]; cbn [eval_cond] in H.
+    destruct c as [nm|fn|kw|kw|kw|sep mx fns|sep kw]; cbn [eval_cond] in H.
     - exact (rx_P nm v H).
     - unfold call_env in H. destruct (find _ env) as [e|] eqn:Ef; [|discriminate]. apply find_some in Ef as [Ein _].
       exact (proj1 Hinv e Ein v H).
@@ -164,19 +176,21 @@ Section Env2.
     - apply Cl_P. exact (HD H).
     - apply Cl_P. exact (HD H).
     - apply Cl_P. cbn [cond_admissible] in Ha. cbn [cond_data_ok] in Hd. exact (rec_Cl env clset sep mx fns v Hinv Hd Ha H).
+    - apply Cl_P. exact (HD H).
   Qed.
 
   Lemma cond_Cl env clset c v : inv env clset -> cond_data_ok c -> cond_clean rxclean clset c = true ->
     eval_cond acceptors env c v = true -> Cl v.
   Proof.
     intros Hinv Hd Hc H. pose proof (data_Cl c v Hd) as HD.
-    destruct c as [nm|fn|kw|kw|kw|sep mx fns]; cbn [eval_cond] in H; cbn [cond_clean] in Hc.
+    destruct c as [nm|fn|kw|kw|kw|sep mx fns|sep kw]; cbn [eval_cond] in H; cbn [cond_clean] in Hc.
     - exact (rx_Cl nm Hc v H).
     - exact (call_clean env clset fn v Hinv Hc H).
     - exact (HD H).
     - exact (HD H).
     - exact (HD H).
     - cbn [cond_data_ok] in Hd. exact (rec_Cl env clset sep mx fns v Hinv Hd Hc H).
+    - exact (HD H).
   Qed.
 
   Theorem keep_defs_inv : forall defs kept clset env,
